@@ -477,3 +477,355 @@ Theorem C12_sat_example_saturating :
   sat_bdd_sat 64 ex_sat_bdd 4 64 (RT 0) = Some 0%N.
 Proof. exact ex_sat_bdd_u64. Qed.
 Print Assumptions C12_sat_example_saturating.
+
+(** * Part 1b: text output of a Natural (Num/NaturalTextProofs.v, Num/NaturalDec.v,
+      Num/NaturalDecProofs.v)
+
+    The output of the [fmt] traits is modelled as the list of digit values,
+    most significant first; [None] is the text [?].  [base_val b ds] is the
+    number written by the digits [ds] in base [b]; [is_digits b ds]: every
+    digit is below [b].  Padding flags (width, fill, alignment, [#], [+], [0])
+    are covered by the correspondence run only. *)
+From OxiVerif Require Import Num.NaturalTextProofs Num.NaturalDec Num.NaturalDecProofs.
+
+(** [fmt::Octal]: [?] exactly for NaN; otherwise the octal digits of the number,
+    no leading zero ([[0]] for 0), as many as announced to [pad_integral] *)
+Theorem C12_nat_fmt_oct : forall a, Inv a ->
+  match val a with
+  | None => fmt_oct a = None
+  | Some v =>
+    exists ds, fmt_oct a = Some ds /\ base_val 8 ds = v /\ is_digits 8 ds /\
+      (v = 0%N -> ds = [0%N]) /\
+      (v <> 0%N -> hd 0%N ds <> 0%N /\ N.of_nat (length ds) = fmt_digit_count 3 a /\
+                   fmt_digit_count 3 a = div_ceil (N.size v) 3)
+  end.
+Proof. exact fmt_oct_spec. Qed.
+Print Assumptions C12_nat_fmt_oct.
+
+(** [fmt::LowerHex] / [fmt::UpperHex] (they differ in the character table only) *)
+Theorem C12_nat_fmt_hex : forall a, Inv a ->
+  match val a with
+  | None => fmt_hex a = None
+  | Some v =>
+    exists ds, fmt_hex a = Some ds /\ base_val 16 ds = v /\ is_digits 16 ds /\
+      (v = 0%N -> ds = [0%N]) /\
+      (v <> 0%N -> hd 0%N ds <> 0%N /\ N.of_nat (length ds) = fmt_digit_count 4 a /\
+                   fmt_digit_count 4 a = div_ceil (N.size v) 4)
+  end.
+Proof. exact fmt_hex_spec. Qed.
+Print Assumptions C12_nat_fmt_hex.
+
+(** the digit loop [fmt_pow2] for any number of bits per digit *)
+Theorem C12_nat_fmt_pow2 : forall bpd a, (1 <= bpd)%N -> (bpd <= 63)%N -> Inv a ->
+  match val a with
+  | None => fmt_pow2 bpd a = None
+  | Some v =>
+    exists ds, fmt_pow2 bpd a = Some ds /\ base_val (2 ^ bpd) ds = v /\ is_digits (2 ^ bpd) ds /\
+      (v = 0%N -> ds = [0%N]) /\
+      (v <> 0%N -> hd 0%N ds <> 0%N /\ N.of_nat (length ds) = fmt_digit_count bpd a /\
+                   fmt_digit_count bpd a = div_ceil (N.size v) bpd)
+  end.
+Proof. exact fmt_pow2_spec. Qed.
+Print Assumptions C12_nat_fmt_pow2.
+
+(** [fmt::Display]: the number handed to [dashu_int::UBig] is the denoted number;
+    [?] for NaN and for exponents above 2^40 (the limit in
+    [TryFrom<&Natural> for UBig]) ... *)
+Theorem C12_nat_fmt_dec : forall a, Inv a ->
+  fmt_dec a = match val a with
+              | Some v => if (expo a <=? 2 ^ 40)%N then Some v else None
+              | None => None
+              end.
+Proof. exact fmt_dec_spec. Qed.
+Print Assumptions C12_nat_fmt_dec.
+
+(** ... and the text is its decimal digits ([dec_digits]: the specification of
+    UBig's [Display], an external library) *)
+Theorem C12_nat_fmt_dec_digits : forall a, Inv a ->
+  match val a with
+  | None => fmt_dec_digits a = None
+  | Some v =>
+    if (expo a <=? 2 ^ 40)%N then
+      exists ds, fmt_dec_digits a = Some ds /\ base_val 10 ds = v /\ is_digits 10 ds /\
+        (v = 0%N -> ds = [0%N]) /\ (v <> 0%N -> hd 0%N ds <> 0%N)
+    else fmt_dec_digits a = None
+  end.
+Proof. exact fmt_dec_digits_spec. Qed.
+Print Assumptions C12_nat_fmt_dec_digits.
+
+Theorem C12_nat_dec_digits : forall v,
+  base_val 10 (dec_digits v) = v /\ is_digits 10 (dec_digits v) /\
+  (v = 0%N -> dec_digits v = [0%N]) /\ (v <> 0%N -> hd 0%N (dec_digits v) <> 0%N).
+Proof. exact dec_digits_spec. Qed.
+Print Assumptions C12_nat_dec_digits.
+
+Theorem C12_nat_example_text :
+  (fmt_oct (from_u64 10) = Some [1; 2]%N /\ fmt_hex (from_u64 0) = Some [0%N] /\
+   fmt_oct (mkNat [3%N] U64MAX) = None /\ fmt_hex (mkNat [3%N] U64MAX) = None /\
+   fmt_hex (mkNat [3%N] 5) = Some [6; 0]%N /\ fmt_oct (mkNat [5%N] 7) = Some [1; 2; 0; 0]%N) /\
+  (fmt_dec_digits (from_u64 1200) = Some [1; 2; 0; 0]%N /\ fmt_dec_digits (from_u64 0) = Some [0%N] /\
+   fmt_dec_digits (mkNat [3%N] U64MAX) = None /\ fmt_dec_digits (mkNat [1%N] (2 ^ 40 + 1)) = None /\
+   fmt_dec_digits (mkNat [3%N] 5) = Some [9; 6]%N) /\
+  (Inv (mkNat [1; 1; 1]%N 2) /\ val (mkNat [1; 1; 1]%N 2) = Some ((1 + 2 ^ 64 + 2 ^ 128) * 4)%N).
+Proof. exact ex_text. Qed.
+Print Assumptions C12_nat_example_text.
+
+(** * Part 4 (C12_nat_to_f64_..., C12_f64_..., C12_sat_f64_...): floating point
+
+    [Natural -> f64] (model [to_f64_bits], Num/Natural.v; proofs
+    Num/NaturalF64Proofs.v) and the counting type [F64] (models Num/F64Count.v,
+    DD/SatCountF64.v; proofs Num/F64CountProofs.v, DD/SatF64Proofs.v).
+    [f64] is Flocq's [binary64]; [f64_of_N v] is Flocq's correctly rounded
+    (nearest, ties to even, overflow to +inf) conversion of the integer [v]:
+    [binary_normalize 53 1024 _ _ mode_NE (Z.of_N v) 0 false].
+    These theorems (and only these) depend on the classical axioms of Coq's
+    real numbers that Flocq uses. *)
+From Coq Require Import ZArith Reals.
+From Flocq Require Import Core.Core IEEE754.Binary IEEE754.Bits.
+From OxiVerif Require Import Num.F64Count Num.F64CountProofs Num.NaturalF64Proofs DD.SatCountF64 DD.SatF64Proofs.
+
+(** [From<&Natural> for f64]: the bit pattern of the correctly rounded value;
+    [f64::NAN] for NaN *)
+Theorem C12_nat_to_f64 : forall a, Inv a ->
+  match val a with
+  | None => to_f64_bits a = F64_NAN_BITS
+  | Some v => Z.of_N (to_f64_bits a) = bits_of_b64 (f64_of_N v)
+  end.
+Proof. exact to_f64_bits_spec. Qed.
+Print Assumptions C12_nat_to_f64.
+
+(** ... in terms of real numbers: round to nearest even of the exact value
+    while that is below 2^1024 ... *)
+Theorem C12_nat_to_f64_round : forall a v, Inv a -> val a = Some v ->
+  (Rabs (round radix2 (FLT_exp (-1074) 53) ZnearestE (IZR (Z.of_N v))) < bpow radix2 1024)%R ->
+  let f := b64_of_bits (Z.of_N (to_f64_bits a)) in
+  is_finite 53 1024 f = true /\
+  B2R 53 1024 f = round radix2 (FLT_exp (-1074) 53) ZnearestE (IZR (Z.of_N v)) /\
+  Bsign 53 1024 f = false.
+Proof. exact to_f64_round. Qed.
+Print Assumptions C12_nat_to_f64_round.
+
+(** ... +infinity otherwise ... *)
+Theorem C12_nat_to_f64_overflow : forall a v, Inv a -> val a = Some v ->
+  (bpow radix2 1024 <= Rabs (round radix2 (FLT_exp (-1074) 53) ZnearestE (IZR (Z.of_N v))))%R ->
+  to_f64_bits a = F64_INF_BITS.
+Proof. exact to_f64_overflow. Qed.
+Print Assumptions C12_nat_to_f64_overflow.
+
+(** ... exact for every number with at most 53 significant bits below 2^1024 *)
+Theorem C12_nat_to_f64_exact : forall a v m e, Inv a -> val a = Some v ->
+  v = (m * 2 ^ e)%N -> (m < 2 ^ 53)%N -> (v < 2 ^ 1024)%N ->
+  let f := b64_of_bits (Z.of_N (to_f64_bits a)) in
+  is_finite 53 1024 f = true /\ B2R 53 1024 f = IZR (Z.of_N v) /\ Bsign 53 1024 f = false.
+Proof. exact to_f64_exact_gen. Qed.
+Print Assumptions C12_nat_to_f64_exact.
+
+Theorem C12_nat_to_f64_nan_pattern :
+  Binary.is_nan 53 1024 (b64_of_bits (Z.of_N F64_NAN_BITS)) = true /\ to_f64_bits NAN = F64_NAN_BITS.
+Proof. exact (conj to_f64_nan to_f64_NAN). Qed.
+Print Assumptions C12_nat_to_f64_nan_pattern.
+
+(** the integer level of the conversion (no floating point involved): the
+    pattern is assembled from the bit width and [rnd53], the 53-bit
+    round-to-nearest-even significand of the mantissa *)
+Theorem C12_nat_to_f64_int : forall a, Inv a -> expo a <> U64MAX ->
+  let m := mval a in let bw := (N.size m + expo a)%N in
+  to_f64_bits a = if (m =? 0)%N then 0%N else if (1024 <? bw)%N then F64_INF_BITS
+                  else ((bw + 1022) * 2 ^ 52 + (rnd53 m - 2 ^ 52))%N.
+Proof. exact to_f64_bits_int. Qed.
+Print Assumptions C12_nat_to_f64_int.
+
+Theorem C12_nat_to_f64_example :
+  to_f64_bits (from_u64 (2 ^ 53 + 1)) = 0x4340000000000000%N /\
+  to_f64_bits (from_u64 (2 ^ 53 + 3)) = 0x4340000000000002%N /\
+  to_f64_bits (nat_shl (from_u64 1) 1023) = 0x7fe0000000000000%N /\
+  to_f64_bits (nat_shl (from_u64 1) 1024) = F64_INF_BITS /\
+  to_f64_bits (nat_shl (from_u64 (2 ^ 54 - 1)) 970) = F64_INF_BITS /\
+  (Inv (nat_shl (from_u64 (2 ^ 54 - 1)) 970) /\
+   val (nat_shl (from_u64 (2 ^ 54 - 1)) 970) = Some ((2 ^ 54 - 1) * 2 ^ 970)%N) /\
+  bits_of_b64 (f64_of_N (2 ^ 53 + 1)) = 0x4340000000000000%Z.
+Proof.
+  exact (conj ex_tof64_tie_even (conj ex_tof64_tie_up (conj ex_tof64_max_pow (conj ex_tof64_inf
+        (conj ex_tof64_carry_inf (conj ex_tof64_inv ex_tof64_flocq_tie)))))).
+Qed.
+Print Assumptions C12_nat_to_f64_example.
+
+(** ** The counting type F64 *)
+
+(** every operation is the correctly rounded exact result (Flocq); [x << k]
+    multiplies by [exp2(k)], which is [2^k] for [k <= 1023] ([+inf] above) *)
+Theorem C12_f64_add_round : forall x y, is_finite 53 1024 x = true -> is_finite 53 1024 y = true ->
+  (Rabs (round radix2 (FLT_exp (-1074) 53) ZnearestE (B2R 53 1024 x + B2R 53 1024 y)) < bpow radix2 1024)%R ->
+  is_finite 53 1024 (f64c_add x y) = true /\
+  B2R 53 1024 (f64c_add x y) = round radix2 (FLT_exp (-1074) 53) ZnearestE (B2R 53 1024 x + B2R 53 1024 y).
+Proof. exact f64c_add_round. Qed.
+Print Assumptions C12_f64_add_round.
+
+Theorem C12_f64_add_overflow : forall x y, is_finite 53 1024 x = true -> is_finite 53 1024 y = true ->
+  (bpow radix2 1024 <= Rabs (round radix2 (FLT_exp (-1074) 53) ZnearestE (B2R 53 1024 x + B2R 53 1024 y)))%R ->
+  Bsign 53 1024 x = Bsign 53 1024 y /\ f64c_add x y = B754_infinity 53 1024 (Bsign 53 1024 x).
+Proof. exact f64c_add_overflow. Qed.
+Print Assumptions C12_f64_add_overflow.
+
+Theorem C12_f64_shl_round : forall x (k : N), is_finite 53 1024 x = true -> (k <= 1023)%N ->
+  (Rabs (round radix2 (FLT_exp (-1074) 53) ZnearestE (B2R 53 1024 x * bpow radix2 (Z.of_N k))) < bpow radix2 1024)%R ->
+  is_finite 53 1024 (f64c_shl x k) = true /\
+  B2R 53 1024 (f64c_shl x k) = round radix2 (FLT_exp (-1074) 53) ZnearestE (B2R 53 1024 x * bpow radix2 (Z.of_N k)).
+Proof. exact f64c_shl_round. Qed.
+Print Assumptions C12_f64_shl_round.
+
+Theorem C12_f64_shr_round : forall x (k : N), is_finite 53 1024 x = true -> (k <= 1074)%N ->
+  is_finite 53 1024 (f64c_shr x k) = true /\
+  B2R 53 1024 (f64c_shr x k) = round radix2 (FLT_exp (-1074) 53) ZnearestE (B2R 53 1024 x * bpow radix2 (- Z.of_N k)).
+Proof. exact f64c_shr_round. Qed.
+Print Assumptions C12_f64_shr_round.
+
+(** exactness: [frep x c j] says that [x] is finite, non-negative and holds
+    exactly [c * 2^j] ([dy c j]).  Sums and scalings of numbers with at most
+    53 significant bits are exact below 2^1024 and +inf from there on *)
+Theorem C12_f64_add_exact : forall x y a b j, frep x a j -> frep y b j -> (a + b <= 2 ^ 53)%N -> (-1074 <= j)%Z ->
+  ((dy (a + b) j < bpow radix2 1024)%R -> frep (f64c_add x y) (a + b) j) /\
+  ((bpow radix2 1024 <= dy (a + b) j)%R -> f64c_add x y = f64c_pos_inf).
+Proof. exact frep_add_cases. Qed.
+Print Assumptions C12_f64_add_exact.
+
+Theorem C12_f64_shl_exact : forall x c j (k : N), frep x c j -> (c <= 2 ^ 53)%N -> (-1074 <= j)%Z -> (k <= 1023)%N ->
+  ((dy c (j + Z.of_N k) < bpow radix2 1024)%R -> frep (f64c_shl x k) c (j + Z.of_N k)) /\
+  (c <> 0%N -> (bpow radix2 1024 <= dy c (j + Z.of_N k))%R -> f64c_shl x k = f64c_pos_inf).
+Proof. exact frep_shl_cases. Qed.
+Print Assumptions C12_f64_shl_exact.
+
+Theorem C12_f64_shr_exact : forall x c j (k : N), frep x c j -> (c <= 2 ^ 53)%N -> (k <= 1074)%N ->
+  (-1074 <= j - Z.of_N k)%Z -> frep (f64c_shr x k) c (j - Z.of_N k).
+Proof. exact frep_shr. Qed.
+Print Assumptions C12_f64_shr_exact.
+
+(** [x << k] of an exactly held [c * 2^j] is the correctly rounded conversion
+    of the exact integer product, for every [k] (operands [>= 1] when
+    [k >= 1024]: what sat_count feeds it); 0 stays 0 *)
+Theorem C12_f64_shl_of_N : forall x c j (k m : N), frep x c j -> (c <= 2 ^ 53)%N -> (-1074 <= j)%Z ->
+  (j + Z.of_N k = Z.of_N m)%Z -> ((1024 <= k)%N -> (0 <= j)%Z) ->
+  f64c_shl x k = f64_of_N (c * 2 ^ m).
+Proof. exact shl_of_N. Qed.
+Print Assumptions C12_f64_shl_of_N.
+
+(** [v as f64]: exact for every integer with at most 53 significant bits below 2^1024, +inf from 2^1024 on *)
+Theorem C12_f64_of_N_exact : forall c j : N, (c <= 2 ^ 53)%N -> (c * 2 ^ j < 2 ^ 1024)%N ->
+  is_finite 53 1024 (f64_of_N (c * 2 ^ j)) = true /\ B2R 53 1024 (f64_of_N (c * 2 ^ j)) = IZR (Z.of_N (c * 2 ^ j)).
+Proof. exact f64_of_N_exact. Qed.
+Print Assumptions C12_f64_of_N_exact.
+
+Theorem C12_f64_of_N_overflow : forall c j : N, (c <= 2 ^ 53)%N -> (2 ^ 1024 <= c * 2 ^ j)%N ->
+  f64_of_N (c * 2 ^ j) = f64c_pos_inf.
+Proof. exact of_N_ovf. Qed.
+Print Assumptions C12_f64_of_N_overflow.
+
+Theorem C12_f64_example :
+  f64c_bits_from_u32 1 = 0x3ff0000000000000%Z /\
+  f64c_bits_shl (f64c_bits_from_u32 1) 1023 = 0x7fe0000000000000%Z /\
+  f64c_bits_shl (f64c_bits_from_u32 1) 1024 = 0x7ff0000000000000%Z /\
+  f64c_bits_shl 0 5000 = 0%Z /\
+  f64c_bits_shr (f64c_bits_from_u32 1) 1074 = 1%Z /\
+  f64c_bits_shr (f64c_bits_from_u32 1) 1075 = 0%Z /\
+  f64c_bits_add (f64c_bits_from_u32 1) (f64c_bits_from_u32 2) = 0x4008000000000000%Z /\
+  f64c_bits_add 0x4340000000000000 (f64c_bits_from_u32 1) = 0x4340000000000000%Z /\
+  f64c_bits_sub (f64c_bits_from_u32 1) (f64c_bits_from_u32 2) = 0xbff0000000000000%Z /\
+  f64c_bits_is_nan (f64c_bits_sub 0x7ff0000000000000 0x7ff0000000000000) = true /\
+  f64c_bits_of_N (2 ^ 53 + 1) = 0x4340000000000000%Z.
+Proof. exact ex_f64c_ops. Qed.
+Print Assumptions C12_f64_example.
+
+(** ** sat_count::<F64> *)
+
+(** diagrams with at most 53 levels (all partial sums have at most 53
+    significant bits), every [vars >= levels], BDD / BCDD / ZBDD, with the
+    scale-down by [MIN_EXP] for [vars >= 1021]: the result is the correctly
+    rounded exact count ... *)
+Theorem C12_sat_f64 : forall s vars e, WF s -> counting_kind (s_kind s) -> nlevels s <= vars ->
+  nlevels s <= 53 -> ref_ok s (eref e) ->
+  sat_ref f64_ops s vars e = Some (f64_of_N (exact_count s vars e)).
+Proof. exact sat_ref_f64. Qed.
+Print Assumptions C12_sat_f64.
+
+(** ... i.e. exactly the count while it is below 2^1024 (e.g. vars <= 1023) ... *)
+Theorem C12_sat_f64_exact : forall s vars e, WF s -> counting_kind (s_kind s) -> nlevels s <= vars ->
+  nlevels s <= 53 -> ref_ok s (eref e) -> (exact_count s vars e < 2 ^ 1024)%N ->
+  exists x, sat_ref f64_ops s vars e = Some x /\ is_finite 53 1024 x = true /\
+            B2R 53 1024 x = IZR (Z.of_N (exact_count s vars e)).
+Proof. exact sat_ref_f64_exact. Qed.
+Print Assumptions C12_sat_f64_exact.
+
+Theorem C12_sat_f64_exact_vars : forall s vars e, WF s -> counting_kind (s_kind s) -> nlevels s <= vars ->
+  nlevels s <= 53 -> ref_ok s (eref e) -> vars <= 1023 ->
+  exists x, sat_ref f64_ops s vars e = Some x /\ is_finite 53 1024 x = true /\
+            B2R 53 1024 x = IZR (Z.of_N (exact_count s vars e)).
+Proof. exact sat_ref_f64_exact_vars. Qed.
+Print Assumptions C12_sat_f64_exact_vars.
+
+(** ... and +inf from there on *)
+Theorem C12_sat_f64_overflow : forall s vars e, WF s -> counting_kind (s_kind s) -> nlevels s <= vars ->
+  nlevels s <= 53 -> ref_ok s (eref e) -> (2 ^ 1024 <= exact_count s vars e)%N ->
+  sat_ref f64_ops s vars e = Some f64c_pos_inf.
+Proof. exact sat_ref_f64_overflow. Qed.
+Print Assumptions C12_sat_f64_overflow.
+
+(** whole histories on one reused cache object (from the number-type
+    independent C12_sat_history_transparent) *)
+Theorem C12_sat_f64_history : forall q qs,
+  qok q -> hist_ok q qs -> counting (q :: qs) -> small_levels (q :: qs) ->
+  exists c', run_queries f64_ops (@cache_default binary64) (q :: qs) =
+             Some (map (fun q => f64_of_N (exact_count (q_snap q) (q_vars q) (q_edge q))) (q :: qs), c').
+Proof. exact run_queries_f64. Qed.
+Print Assumptions C12_sat_f64_history.
+
+(** beyond 53 levels (any diagram, no well-formedness needed): the run of the
+    BDD / BCDD recursion from the terminal value [2^k], [k <= 1022], is the
+    evaluation of the same expression tree over the reals with Flocq's
+    rounding after every addition and every halving *)
+Theorem C12_sat_f64_rounded_bdd : forall s (k : N) f r a, (k <= 1022)%N ->
+  walk (bdd_schemeR (bpow radix2 (Z.of_N k))) s f r false = Some a ->
+  exists x, walk (bdd_scheme f64_ops (f64c_shl (n_one f64_ops) k)) s f r false = Some x /\
+            is_finite 53 1024 x = true /\ B2R 53 1024 x = a.
+Proof. exact walk_f64_bdd_rounded. Qed.
+Print Assumptions C12_sat_f64_rounded_bdd.
+
+Theorem C12_sat_f64_rounded_bcdd : forall s (k : N) f r tag a, (k <= 1022)%N ->
+  walk (bcdd_schemeR (bpow radix2 (Z.of_N k))) s f r tag = Some a ->
+  exists x, walk (bcdd_scheme f64_ops (f64c_shl (n_one f64_ops) k)) s f r tag = Some x /\
+            is_finite 53 1024 x = true /\ B2R 53 1024 x = a.
+Proof. exact walk_f64_bcdd_rounded. Qed.
+Print Assumptions C12_sat_f64_rounded_bcdd.
+
+Theorem C12_sat_f64_rounded_query : forall s vars e a, s_kind s = KBdd -> vars <= 1020 ->
+  walk (bdd_schemeR (bpow radix2 (Z.of_nat vars))) s (S (nlevels s)) (eref e) false = Some a ->
+  exists x, sat_ref f64_ops s vars e = Some x /\ is_finite 53 1024 x = true /\ B2R 53 1024 x = a.
+Proof. exact sat_ref_f64_bdd_rounded. Qed.
+Print Assumptions C12_sat_f64_rounded_query.
+
+(** non-vacuity: (x0 /\ x1) \/ x2 as BDD / BCDD / ZBDD gives 5.0, 10.0,
+    5 * 2^1020, +inf (vars = 1100, 3000), 0 stays 0; a history *)
+Theorem C12_sat_f64_example :
+  sat_f64_bits ex_sat_bdd 3 (xe (RN 4)) = Some 0x4014000000000000%Z /\
+  sat_f64_bits ex_sat_bdd 4 (xe (RN 4)) = Some 0x4024000000000000%Z /\
+  sat_f64_bits ex_sat_bdd 1023 (xe (RN 4)) = Some 0x7fd4000000000000%Z /\
+  sat_f64_bits ex_sat_bdd 1100 (xe (RN 4)) = Some 0x7ff0000000000000%Z /\
+  sat_f64_bits ex_sat_bdd 3000 (xe (RN 4)) = Some 0x7ff0000000000000%Z /\
+  sat_f64_bits ex_sat_bdd 1100 (xe (RT 0)) = Some 0%Z /\
+  sat_f64_bits ex_sat_bcdd 3 (mkEdge (RN 4) true) = Some 0x4008000000000000%Z /\
+  sat_f64_bits ex_sat_zbdd 3 (xe (RN 6)) = Some 0x4014000000000000%Z /\
+  sat_f64_bits ex_sat_zbdd 1100 (xe (RN 6)) = Some 0x7ff0000000000000%Z /\
+  sat_f64_cached_bits true ex_sat_bdd 1023 (xe (RN 4)) = Some 0x7fd4000000000000%Z /\
+  f64_count_bits 5 = 0x4014000000000000%Z /\ f64_count_bits (5 * 2 ^ 1020) = 0x7fd4000000000000%Z /\
+  f64_count_bits (2 ^ 1024) = 0x7ff0000000000000%Z.
+Proof. exact ex_sat_f64. Qed.
+Print Assumptions C12_sat_f64_example.
+
+Theorem C12_sat_f64_example_history :
+  small_levels ex_history /\
+  match run_queries f64_ops (@cache_default binary64) ex_history with
+  | Some (vs, c) => map bits_of_b64 vs =
+      [0x4014000000000000; 0x4018000000000000; 0x4024000000000000; 0x4020000000000000]%Z
+  | None => False
+  end.
+Proof. exact (conj ex_f64_history_small ex_f64_history_run). Qed.
+Print Assumptions C12_sat_f64_example_history.
